@@ -81,6 +81,7 @@ type BlockPlan struct {
 	Txs            int       `json:"txs"`
 	Blobs          int       `json:"blobs"`
 	DefaultPayload bool      `json:"default_payload"` // bellatrix pre-merge: keep execution disabled
+	BySlashedProposer bool   `json:"by_slashed_proposer,omitempty"` // build the block although the slot's proposer is slashed (invalid: used by C03 only)
 	PayloadShape   int       `json:"payload_shape,omitempty"` // 0 ordinary; 1 block_hash all zero; 2 sparse: only parent_hash, prev_randao, timestamp (and withdrawals) are non-default
 	SlashSpan      int       `json:"slash_span,omitempty"` // 0: slashed headers/votes from the last two epochs; 1: from any past epoch (other side of fork upgrades); 2: also future epochs
 }
@@ -350,7 +351,7 @@ func (c *Chain) BuildBlock(slot uint64, plan *BlockPlan) (sbOut *refspec.SignedB
 	if len(sp.ActiveIndices(pre, sp.CurrentEpoch(pre))) == 0 {
 		return nil, nil, ErrProposerSlashed // no proposer at all
 	}
-	if pre.Validators[sp.BeaconProposerIndex(pre)].Slashed {
+	if pre.Validators[sp.BeaconProposerIndex(pre)].Slashed && !plan.BySlashedProposer {
 		return nil, nil, ErrProposerSlashed // nobody can propose at this slot
 	}
 	c.queueDeposits(pre, plan.Queue, pr)
@@ -786,6 +787,9 @@ func (c *Chain) BuildBlock(slot uint64, plan *BlockPlan) (sbOut *refspec.SignedB
 
 	// ---- final: run the reference block processing on a clean copy to obtain the post-state
 	post := pre.Copy()
+	if plan.BySlashedProposer {
+		post.Validators[proposer].Slashed = false // the block is invalid anyway; its declared root is the one it would have had
+	}
 	if err := sp.ProcessBlockOnly(post, blk); err != nil {
 		return nil, nil, fmt.Errorf("reference rejects its own block: %v", err)
 	}
